@@ -23,7 +23,7 @@ OPS = ['C01']
 RULE = ('cases: dft2 / idft2 with input and output shapes drawn independently from 1..7 (thorough 1..12 with a 5 % tail up to 16; forced 1x1, single row/column, '
         'even/odd, non-square), complex Gaussian data, per-axis α drawn independently from {1/n_in, 1/n_out, random in ±(0.01,0.6)}, '
         'real shifts in [-3,3], integer offsets in [-9,9], both flags, scalar / pair / default forms of alpha, shape, shift, offset, complex / float / int64 input, with and without out= (incl. float64 / int64 buffers that must be refused with TypeError; idft2 cases carry the same buffer classes and are run through the idft2 buffer model), the call made on the caller\'s own array, full and oversampled round trips, C / Fortran / strided / read-only inputs, out= buffers of every class dft2\'s guard or np.dot(out=) distinguishes (Fortran-ordered — accepted when a single row/column —, strided, read-only, complex64, clongdouble, object, wrong shape, transposed, 1-D, complex64 of the wrong shape: the buffer model\'s outcome must be the real one; for the oracle an exception or the right values, never silently something else), full-period round trips of which half carry integer offsets forward and an integer shift back and a quarter a real forward shift too (drawn from a sub-stream seeded by the case\'s first sample), bursts of repeated shapes with fresh '
-        'offsets (coordinate cache); plus full-period round trips. distinct = (kind, shapes, α class per axis, shift/offset zero-ness, '
+        'offsets (coordinate cache); all-zero and single-sample input planes (complex / float / int64) written by dft2 and idft2 into a pre-filled non-zero out= buffer (12 per quick run, 200 thorough, a leading block of 60 in the search tier: the buffer must hold the zeros of a fresh allocation, not its stale contents); plus full-period round trips. distinct = (kind, shapes, α class per axis, shift/offset zero-ness, '
         'flags) signature with values; non-trivial = outside the region the test-suite samples (square α = 1/n isotropic, zero '
         'shift and offset, fresh allocation) A ≈5 % sample (search tier: a leading block of 260 + a >32-key cache-churn sequence) comes from an extremes stream: samplings within 3e-5 … one ulp of 1/n on centred same-shape transforms, in-place out=f, 1-D-like arrays of up to 1025 rows (quick ≤ 100), data at 1e-150 … 1e150, int8…uint32 inputs at their limits, shifts within 1e-9 of integers, shifts to 1e3, offsets to ±1000, samplings 1e-9 … 10; all tolerances are relative to Σ|f|.')
 TRUSTED = ['np.dot(A, B, out=buf) accepts buf exactly when it is a writeable, aligned, C-contiguous complex128 array of the result\'s shape and raises ValueError otherwise; np.can_cast(complex, dtype) is true for complex128 / clongdouble / object and false for complex64 / float64 / int64 (Model/FourierOut.lean dotAccepts, BufDtype.canCastComplex: written by hand, compared with the real outcome on every generated buffer, for dft2 and for idft2)',
@@ -220,10 +220,26 @@ def _churn(rng):
         out.append(_blank('dft2', sh, osh, re, im, [0.3, 0.2], True, shift=[0.25, -1.5], offset=[int(rng.integers(-3, 4)), int(rng.integers(-3, 4))]))
     return out
 
+def _zero_out_case(rng, kmax):
+    """an all-zero (one in four: all-zero but for a single sample) input plane written into a caller-supplied, pre-filled non-zero
+    out= buffer (a work buffer reused for successive planes of which a later one is empty), dft2 and idft2, complex / float / int64
+    input: the buffer must end up holding what a fresh allocation holds — zeros — not its stale contents (an early return on an empty
+    input would leave them)"""
+    while True:
+        c = _case(rng, kmax)
+        if c['kind'] in ('dft2', 'idft2'): break
+    n = len(c['re']); t = int(rng.integers(0, 4))
+    re, im = [0.0] * n, [0.0] * n
+    if t == 3:
+        k = int(rng.integers(0, n)); re[k] = float(rng.uniform(0.5, 2.0)) * (-1.0) ** int(rng.integers(0, 2)); im[k] = float(rng.normal())
+    c.update({'re': re, 'im': im, 'out': True, 'out_kind': 'ok', 'zero_input': t != 3, 'dtype': ['complex', 'float', 'int', 'complex'][t]})
+    return c
+
 def generate(rng, tier):
     n, kmax = {'quick': (300, 7), 'thorough': (8000, 12), 'search': (700, 7)}[tier]
     out, prev = [], None
     if tier == 'search':                 # only run once a tie is already broken: the nasty inputs first
+        out += [_zero_out_case(rng, 7) for _ in range(60)]
         out += [_extreme(rng, True) for _ in range(260)] + _churn(rng)
     for i in range(n):
         k = 16 if (tier == 'thorough' and rng.integers(0, 20) == 0) else kmax      # a 5 % tail of shapes up to 16
@@ -231,6 +247,8 @@ def generate(rng, tier):
             c = _extreme(rng, False); out.append(c); prev = None; continue
         c = _case(rng, k, prev); out.append(c); prev = c
     if tier == 'thorough': out += [_extreme(rng, True) for _ in range(150)] + _churn(rng)
+    # appended after the main stream, so that the cases of existing seeds are unchanged
+    if tier != 'search': out += [_zero_out_case(rng, kmax) for _ in range({'quick': 12, 'thorough': 200}[tier])]
     return out
 
 def _full_period(c):
@@ -258,6 +276,7 @@ def tags(c):
     if c['alpha'][0] < 0 or c['alpha'][1] < 0: t.append('negative-alpha')
     for a in c['aclass']: t.append('alpha:' + a)
     if c.get('out_kind') == 'alias': t.append('out=f (in place)')
+    if 'zero_input' in c: t.append('zero-input+out=' if c['zero_input'] else 'one-sample-input+out=')
     if max(c['shape'] + c['oshape']) > 64: t.append('rows>64')
     if max(c['shape'] + c['oshape']) > 256: t.append('rows>256')
     for k, v in c.get('forms', {}).items(): t.append(f'form:{k}={v}')
